@@ -12,6 +12,8 @@ struct PatternVersions {
   es2018: HashSet<&'static str>,
   es2019: HashSet<&'static str>,
   es2020: HashSet<&'static str>,
+  es2021: HashSet<&'static str>,
+  es2022: HashSet<&'static str>,
 }
 
 static GC_NAME_PATTERN: Lazy<HashSet<&'static str>> =
@@ -112,6 +114,8 @@ static GC_VALUE_PATTERNS: Lazy<PatternVersions> =
 
     es2019: HashSet::new(),
     es2020: HashSet::new(),
+    es2021: HashSet::new(),
+    es2022: HashSet::new(),
   });
 static SC_VALUE_PATTERNS: Lazy<PatternVersions> =
   Lazy::new(|| PatternVersions {
@@ -432,6 +436,35 @@ static SC_VALUE_PATTERNS: Lazy<PatternVersions> =
     .iter()
     .copied()
     .collect(),
+
+    es2021: [
+      "Chorasmian",
+      "Chrs",
+      "Diak",
+      "Dives_Akuru",
+      "Khitan_Small_Script",
+      "Kits",
+      "Yezi",
+      "Yezidi",
+    ]
+    .iter()
+    .copied()
+    .collect(),
+
+    es2022: [
+      "Cpmn",
+      "Cypro_Minoan",
+      "Old_Uyghur",
+      "Ougr",
+      "Tangsa",
+      "Tnsa",
+      "Toto",
+      "Vith",
+      "Vithkuqi",
+    ]
+    .iter()
+    .copied()
+    .collect(),
   });
 static BIN_PROPERTY_PATTERNS: Lazy<PatternVersions> =
   Lazy::new(|| PatternVersions {
@@ -536,6 +569,13 @@ static BIN_PROPERTY_PATTERNS: Lazy<PatternVersions> =
     es2019: ["Extended_Pictographic"].iter().copied().collect(),
 
     es2020: HashSet::new(),
+
+    es2021: ["EBase", "EComp", "EMod", "EPres", "ExtPict"]
+      .iter()
+      .copied()
+      .collect(),
+
+    es2022: HashSet::new(),
   });
 static LARGE_ID_START_RANGES: Lazy<Vec<u32>> = Lazy::new(|| {
   restore_ranges(
@@ -564,6 +604,10 @@ pub fn is_valid_unicode_property(
         && SC_VALUE_PATTERNS.es2019.contains(value))
       || (version >= EcmaVersion::Es2020
         && SC_VALUE_PATTERNS.es2020.contains(value))
+      || (version >= EcmaVersion::Es2021
+        && SC_VALUE_PATTERNS.es2021.contains(value))
+      || (version >= EcmaVersion::Es2022
+        && SC_VALUE_PATTERNS.es2022.contains(value))
   } else {
     false
   }
@@ -577,6 +621,12 @@ pub fn is_valid_lone_unicode_property(
     && BIN_PROPERTY_PATTERNS.es2018.contains(value))
     || (version >= EcmaVersion::Es2019
       && BIN_PROPERTY_PATTERNS.es2019.contains(value))
+    || (version >= EcmaVersion::Es2020
+      && BIN_PROPERTY_PATTERNS.es2020.contains(value))
+    || (version >= EcmaVersion::Es2021
+      && BIN_PROPERTY_PATTERNS.es2021.contains(value))
+    || (version >= EcmaVersion::Es2022
+      && BIN_PROPERTY_PATTERNS.es2022.contains(value))
 }
 
 pub fn is_large_id_start(cp: UnicodeChar) -> bool {
